@@ -277,7 +277,10 @@ def rule_diffusion_step(chk, prog):
   Ai = alg.Algebra(ev)
   Ls = Ai.name(lambda t: t.k == 'attr' and t.a[1] == 'total_wavenumbers', 'L', integer=True, positive=True)
   idx = top.a[1]
-  chk.check(idx.k not in ('tuple', 'slice') and alg.equal(Ai.conv(idx), Ls - 1), 'C15.9-top-mode', f'{site}: the normalising eigenvalue is that of total wavenumber L − 1 (the top resolved mode)',
+  pad_l = Ai.name(lambda t: t.k == 'sub' and t.a[0].k == 'attr' and t.a[0].a[1] == 'modal_padding' and t.a[1].k == 'const' and t.a[1].a[0] in (1, -1), 'pad_l', integer=True, nonnegative=True)
+  # an end-relative spelling counts from the padded length L + pad_l of the total-wavenumber axis
+  from_end = idx.k not in ('tuple', 'slice') and alg.equal(Ai.conv(idx) + Ls + pad_l, Ls - 1)
+  chk.check(idx.k not in ('tuple', 'slice') and (alg.equal(Ai.conv(idx), Ls - 1) or from_end), 'C15.9-top-mode', f'{site}: the normalising eigenvalue is that of total wavenumber L − 1 (the top resolved mode)',
             sym.show(idx), call.loc, 'total_wavenumbers - 1', sym.show(idx))
   # scale · |λ_top|^order == dt / tau
   A = alg.Algebra(ev, opaque=lambda t: t == top)
